@@ -178,9 +178,15 @@ func swallowed(src, out string, cf config.FormatConfig) (string, string) {
 	return "", ""
 }
 
-func nodeOfLabel(label string) string {
+func nodeOfLabel(label string, c Case) string {
 	first := strings.SplitN(label, "+", 2)[0]
-	return strings.SplitN(first, "/", 2)[0]
+	parts := strings.Split(first, "/")
+	if parts[0] == "FunctionCallExpression" && len(parts) > 1 {
+		// the placeholders of a call inside an expression are told apart, and so are the statements the call sits in:
+		// the known findings are the placeholder in front of an argument and the control expression of a switch
+		return parts[0] + "/" + parts[1] + "@" + progOf(c)
+	}
+	return parts[0]
 }
 
 func errShape(s string) string {
@@ -219,7 +225,7 @@ func runC03(c Case) engine.Result {
 	})
 	p := runPipe(msrc, c.Conf)
 	if r.class == "swallowed" {
-		label = nodeOfLabel(label)
+		label = nodeOfLabel(label, c)
 	}
 	return engine.Result{NonTrivial: true, Outcome: strings.SplitN(r.class, "|", 2)[0], Findings: []engine.Finding{{
 		Class:  r.class + "|" + label + "|" + devs,
@@ -326,7 +332,7 @@ func runC14(c Case) engine.Result {
 			return w2 != ""
 		})
 		return engine.Result{NonTrivial: true, Outcome: "changed", Findings: []engine.Finding{{
-			Class:  "swallowed|" + nodeOfLabel(label) + "|default",
+			Class:  "swallowed|" + nodeOfLabel(label, c) + "|default",
 			What:   fmt.Sprintf("the first pass prints line comment %q without its line break (%q), so the second pass sees a different program [%s]", w, g, c.From),
 			Detail: map[string]string{"src": msrc, "pass1": o1, "pass2": o2},
 		}}}
@@ -423,6 +429,12 @@ func c15once(src string, cf config.FormatConfig) (problem string, detail string,
 }
 
 func runC15(c Case) engine.Result {
+	for _, l := range c.Labels {
+		if strings.HasPrefix(l, "FunctionCallExpression/") {
+			// arguments of a call inside an expression are not among the documented placeholders
+			return engine.Result{Skipped: true}
+		}
+	}
 	if len(Comments(c.Src)) == 0 {
 		return engine.Result{Skipped: true}
 	}
@@ -445,7 +457,7 @@ func runC15(c Case) engine.Result {
 		return ok2 && p2 == prob
 	})
 	if prob == "swallowed" {
-		label = nodeOfLabel(label)
+		label = nodeOfLabel(label, c)
 		return engine.Result{NonTrivial: true, Outcome: prob, Findings: []engine.Finding{{
 			Class:  prob + "|" + label + "|default",
 			What:   fmt.Sprintf("a line comment at an inline placeholder is printed without its line break and swallows code: %s [%s]", det, c.From),
